@@ -6,7 +6,7 @@
     (HashBind.v).  [ap_ok] = every audit node is 32 bytes or DefaultLeaf (checkable). *)
 From Coq Require Import List Bool Arith NArith.
 From Verif Require Import Trie.Model Trie.Basics Trie.HashBind Trie.Proof Trie.ProofBasics
-  Trie.ProofSound Trie.ProofTop Trie.ProofComplete.
+  Trie.ProofSound Trie.ProofTop Trie.ProofComplete Trie.StateDBProof.
 Import ListNotations.
 
 (** Completeness, present key: the proof merkleProof generates is accepted by VerifyInclusion
@@ -137,3 +137,46 @@ Theorem C11_non_inclusion_c_foreign_sound :
   get t kbits = None \/ hash_break H.
 Proof. exact non_inclusion_c_foreign_sound. Qed.
 Print Assumptions C11_non_inclusion_c_foreign_sound.
+
+(** ---- statedb layer: account proof + variable proof (GetAccountAndProof, GetVarAndProof) ---- *)
+
+(** Composition: a verified account proof for state st' against the block's state root and a
+    verified variable proof against st'.StorageRoot bind the variable to the state root: st'
+    is the contract's real state and the storage trie holds H(val) under the variable's key.
+    [marshal] = the (injective) encoding of types.State, [sroot] its StorageRoot field. *)
+Theorem C11_account_var_composition_sound :
+  forall (H : bytes -> bytes), (forall x, length (H x) = 32) ->
+  forall (acct : Type) (marshal : acct -> bytes) (sroot : acct -> bytes),
+  (forall a b, marshal a = marshal b -> a = b) ->
+  forall (w : world acct) st' ap_a kv val ap_v,
+  world_ok H acct marshal sroot w -> length kv = 256 -> ap_ok ap_a -> ap_ok ap_v ->
+  client_accepts H acct marshal sroot (root H 256 (w_acc acct w)) (w_ka acct w) st' ap_a kv val ap_v = true ->
+  (st' = w_st acct w /\ get (w_sto acct w) kv = Some (H val)) \/ hash_break H.
+Proof. exact account_var_composition_sound. Qed.
+Print Assumptions C11_account_var_composition_sound.
+
+(** Two accepted (state, value) claims for the same variable coincide. *)
+Theorem C11_account_var_value_unique :
+  forall (H : bytes -> bytes), (forall x, length (H x) = 32) ->
+  forall (acct : Type) (marshal : acct -> bytes) (sroot : acct -> bytes),
+  (forall a b, marshal a = marshal b -> a = b) ->
+  forall (w : world acct) st1 ap1 kv val1 apv1 st2 ap2 val2 apv2,
+  world_ok H acct marshal sroot w -> length kv = 256 -> ap_ok ap1 -> ap_ok apv1 -> ap_ok ap2 -> ap_ok apv2 ->
+  client_accepts H acct marshal sroot (root H 256 (w_acc acct w)) (w_ka acct w) st1 ap1 kv val1 apv1 = true ->
+  client_accepts H acct marshal sroot (root H 256 (w_acc acct w)) (w_ka acct w) st2 ap2 kv val2 apv2 = true ->
+  (st1 = st2 /\ val1 = val2) \/ hash_break H.
+Proof. exact account_var_value_unique. Qed.
+Print Assumptions C11_account_var_value_unique.
+
+(** Absence of a variable (foreign leaf on its path) composed with a verified account proof. *)
+Theorem C11_account_var_absence_sound :
+  forall (H : bytes -> bytes), (forall x, length (H x) = 32) ->
+  forall (acct : Type) (marshal : acct -> bytes) (sroot : acct -> bytes),
+  (forall a b, marshal a = marshal b -> a = b) ->
+  forall (w : world acct) st' ap_a kv pkbits pv ap_v,
+  world_ok H acct marshal sroot w -> length kv = 256 -> length pkbits = 256 -> length pv = 32 -> ap_ok ap_a -> ap_ok ap_v ->
+  verify_inclusion H (root H 256 (w_acc acct w)) ap_a (bits_to_bytes (w_ka acct w)) (H (marshal st')) = true ->
+  verify_non_inclusion H (sroot st') ap_v (bits_to_bytes kv) pv (bits_to_bytes pkbits) = true ->
+  (st' = w_st acct w /\ get (w_sto acct w) kv = None) \/ hash_break H.
+Proof. exact account_var_absence_sound. Qed.
+Print Assumptions C11_account_var_absence_sound.
